@@ -797,3 +797,76 @@ Qed.
 
 Lemma witness_in_class : in_spf_temp_class w_outcomes 1 [] 1 [] 2 w_global w_session = true.
 Proof. vm_compute. reflexivity. Qed.
+
+(* ------------------------------------------------------------------------------------------------ *)
+(** * G. the control-file loader on plain files *)
+
+Definition plain_byte (c : N) : bool :=
+  negb (N.eqb c 0) && negb (N.eqb c LF) && negb (N.eqb c SP) && negb (N.eqb c HT) && negb (N.eqb c HASH).
+
+Definition plain_line (l : bytes) : Prop := l <> [] /\ forallb plain_byte l = true.
+
+Fixpoint join_lines (ls : list bytes) : bytes :=
+  match ls with
+  | [] => []
+  | l :: r => l ++ LF :: join_lines r
+  end.
+
+Fixpoint join0 (ls : list bytes) : bytes :=
+  match ls with
+  | [] => []
+  | l :: r => l ++ 0%N :: join0 r
+  end.
+
+Lemma plain_byte_facts c : plain_byte c = true ->
+  N.eqb c 0 = false /\ N.eqb c LF = false /\ N.eqb c SP = false /\ N.eqb c HT = false /\ N.eqb c HASH = false.
+Proof.
+  unfold plain_byte. intros H.
+  repeat (apply andb_true_iff in H; destruct H as [H ?]).
+  repeat split; apply negb_true_iff; assumption.
+Qed.
+
+Lemma mutate_plain l : forall pb rest, forallb plain_byte l = true ->
+  mutate (l ++ LF :: rest) (MNormal pb) = option_map (fun x => l ++ 0%N :: x) (mutate rest (MNormal false)).
+Proof.
+  induction l as [|c l IH]; intros pb rest H.
+  - cbn [app mutate]. change (N.eqb LF HASH) with false. change (N.eqb LF SP || N.eqb LF HT) with false.
+    change (N.eqb LF LF) with true. cbn [andb]. cbv iota.
+    destruct (mutate rest (MNormal false)); reflexivity.
+  - cbn [forallb] in H. apply andb_true_iff in H as [Hc Hl].
+    destruct (plain_byte_facts c Hc) as [H0 [H1 [H2 [H3 H4]]]].
+    cbn [app mutate]. rewrite H4, H2, H3, H1. cbn [andb orb]. cbv iota.
+    rewrite (IH _ rest Hl). destruct (mutate rest (MNormal false)); reflexivity.
+Qed.
+
+Lemma mutate_join ls : Forall plain_line ls -> mutate (join_lines ls) (MNormal false) = Some (join0 ls).
+Proof.
+  induction ls as [|l r IH]; intros H; [reflexivity|].
+  inversion H as [|? ? [_ Hl] Hr]; subst. cbn [join_lines join0].
+  rewrite (mutate_plain l false (join_lines r) Hl), (IH Hr). reflexivity.
+Qed.
+
+Lemma split0_piece l : forall cur rest, forallb plain_byte l = true -> cur ++ l <> [] ->
+  split0 (l ++ 0%N :: rest) cur = (cur ++ l) :: split0 rest [].
+Proof.
+  induction l as [|c l IH]; intros cur rest H Hne.
+  - rewrite app_nil_r in *. cbn [app split0]. change (N.eqb 0 0) with true. cbv iota.
+    destruct cur; [contradiction Hne; reflexivity|reflexivity].
+  - cbn [forallb] in H. apply andb_true_iff in H as [Hc Hl].
+    destruct (plain_byte_facts c Hc) as [H0 _].
+    cbn [app split0]. rewrite H0.
+    rewrite (IH (cur ++ [c]) rest Hl).
+    + rewrite <- app_assoc. reflexivity.
+    + destruct cur; discriminate.
+Qed.
+
+Lemma split0_join ls : Forall plain_line ls -> split0 (join0 ls) [] = ls.
+Proof.
+  induction ls as [|l r IH]; intros H; [reflexivity|].
+  inversion H as [|? ? [Hne Hl] Hr]; subst. cbn [join0].
+  rewrite (split0_piece l [] (join0 r) Hl); [|exact Hne]. rewrite (IH Hr). reflexivity.
+Qed.
+
+(** a file of plain lines is loaded as exactly these lines, in order *)
+Lemma parse_plain ls : Forall plain_line ls -> parse_conf (join_lines ls) = Some ls.
+Proof. intros H. unfold parse_conf. rewrite (mutate_join ls H), (split0_join ls H). reflexivity. Qed.
